@@ -156,3 +156,27 @@ pub fn big_n(i: usize) -> usize {
     let base = usize::MAX / d;
     if delta >= 5 { base.saturating_add(delta - 5) } else { base - (5 - delta) }
 }
+
+/// Boundary values taken from the crate's source by `tools/scan_constants.py` (every literal of
+/// src/*.rs in 0x80..=0x10FFFF with its two neighbours); the check passes the file in `VERIF_CONSTANTS`.
+/// Empty when the variable is not set (replays).
+pub fn source_constants() -> &'static Vec<u32> {
+    static C: std::sync::OnceLock<Vec<u32>> = std::sync::OnceLock::new();
+    C.get_or_init(|| {
+        let mut v = Vec::new();
+        if let Ok(p) = std::env::var("VERIF_CONSTANTS") {
+            if let Ok(text) = std::fs::read_to_string(p) {
+                for l in text.lines() {
+                    if let Some(h) = l.split(' ').next() {
+                        if let Ok(x) = u32::from_str_radix(h, 16) {
+                            if char::from_u32(x).is_some() {
+                                v.push(x);
+                            }
+                        }
+                    }
+                }
+            }
+        }
+        v
+    })
+}
